@@ -833,7 +833,7 @@ def r12_envelope_roundtrip(a, tier):
     small = [''.join(t) for k in range(0, 4) for t in itertools.product('~a1', repeat=k)]
     nasty = ['~~', 'worker~~1', '~a4~', '~~a4~~', 'x~04~y', 'aaaa', 'aaaaaaaaaaaa~', '~aaaa', '00000007', '    indented', '1111~1', '~11111~',
              # control characters as JSON spells them (the tty layer works on the JSON TEXT): a real ESC, an ANSI sequence, other controls, a line break
-             '\x1b', '\x1b[1;31mred\x1b[0m', 'bell\x07nul\x00del\x7f', 'two\nlines', 'tab\there', 'quote"and\\backslash']
+             'ααααβ~~ω', 'naïve ☃ 日本語', '\x1b', '\x1b[1;31mred\x1b[0m', 'bell\x07nul\x00del\x7f', 'two\nlines', 'tab\there', 'quote"and\\backslash']
     strings = small if tier == 'thorough' else small[::3] + ['~', '~~', '~a1', 'a~1']
     strings = list(dict.fromkeys(strings + nasty))
     packets = []
